@@ -1,5 +1,6 @@
 import PC.Drv.Util
 import PC.Model.Replica
+import PC.Drv.Load
 /-! Driver for `replica` (names) and `scale` (the specification of a scale history). -/
 namespace PC.Drv.Replica
 open PC.Drv PC.Replica
@@ -19,47 +20,58 @@ def replicaStep (_ : Unit) (line : String) : Unit × String :=
   | _ => ((), "bad-op")
 
 structure ScaleSt where
-  count : Nat := 1          -- replicas of "w"
+  g : PC.Load.Vars := []
+  w : PC.Load.ProcT := { name := [] }
+  o : PC.Load.ProcT := { name := [] }
+  cur : List PC.Load.Replica := []   -- replicas of "w"
   launches : Nat := 0
   stops : Nat := 0
 
 def sortStrings (l : List String) : List String := (l.toArray.qsort (· < ·)).toList
 
 def dump (ret : String) (s : ScaleSt) : String :=
-  let ws := (List.range s.count).map (nameStr "w" s.count)
-  let names := sortStrings (ws ++ ["o"])
+  let other := PC.Load.loadProc s.g s.o
+  let names := sortStrings ((s.cur ++ other).map fun r => String.ofList r.replicaName)
   let ns := "[" ++ ",".intercalate names ++ "]"
-  let info := sortStrings (((List.range s.count).map fun i => s!"{nameStr "w" s.count i}:w/{i}/{s.count}") ++ ["o:o/0/1"])
-  s!"ret={ret} proj={ns} states={ns} logs={ns} run={ns} info=[{",".intercalate info}] alive={s.count + 1} launches={s.launches} stops={s.stops}"
+  let info := sortStrings ((s.cur ++ other).map PC.Drv.Load.showReplica)
+  s!"ret={ret} proj={ns} states={ns} logs={ns} run={ns} info=[{",".intercalate info}] alive={s.cur.length + other.length} launches={s.launches} stops={s.stops}"
+
+/-- the property's reference: a fresh load with `replicas: n` -/
+def freshDump (ret : String) (s : ScaleSt) (n : Nat) : String :=
+  dump ret { s with cur := PC.Load.replicasOf s.g s.w n }
 
 def scaleStep (s : ScaleSt) (line : String) : ScaleSt × String :=
   let (op, impl) := splitLine line
   match words op with
-  | ["scinit", k] =>
-    match k.toNat? with
-    | some k =>
-      let s' : ScaleSt := { count := max k 1, launches := max k 1 + 1, stops := 0 }
+  | ["scinit", g, pw, po] =>
+    match PC.Drv.Load.parseVars g, PC.Drv.Load.parseProc pw, PC.Drv.Load.parseProc po with
+    | some g, some w, some o =>
+      let cur := PC.Load.loadProc g w
+      let s' : ScaleSt := { g, w, o, cur, launches := cur.length + 1, stops := 0 }
       let d := dump "ok" s'
-      (s', d ++ " ||| " ++ (if impl == d then "ok" else "bad:fresh-load"))
-    | none => (s, "bad-op")
+      (s', d ++ " ||| " ++ (if impl == d then "ok" else "bad:C13:C13:fresh-load"))
+    | _, _, _ => (s, "bad-op")
   | ["scale", th, n] =>
     match hexDec th, n.toInt? with
     | some target, some n =>
-      let keys := ((List.range s.count).map (nameStr "w" s.count)) ++ ["o"]
+      let keys := (s.cur.map fun r => String.ofList r.replicaName) ++ [String.ofList s.o.name]
       if n < 1 then
         let d := dump "bad-scale" s
-        (s, d ++ " ||| " ++ (if impl == d then "ok" else "bad:invalid-scale-must-change-nothing"))
+        (s, d ++ " ||| " ++ (if impl == d then "ok" else "bad:C13:C13:invalid-scale-must-change-nothing"))
       else if !(keys.contains target) then
         let d := dump "no-such" s
-        (s, d ++ " ||| " ++ (if impl == d then "ok" else "bad:unknown-name-must-change-nothing"))
-      else if target == "o" then
+        (s, d ++ " ||| " ++ (if impl == d then "ok" else "bad:C13:C13:unknown-name-must-change-nothing"))
+      else if target == String.ofList s.o.name then
         -- scaling the other process is outside this scenario family
         (s, "skip ||| ok")
       else
         let n := n.toNat
-        let s' : ScaleSt := { count := n, launches := s.launches + (n - s.count), stops := s.stops + (s.count - n) }
+        let cur' := PC.Load.scaleTo s.g s.w s.cur n
+        let s' : ScaleSt := { s with cur := cur', launches := s.launches + (n - s.cur.length), stops := s.stops + (s.cur.length - n) }
         let d := dump "ok" s'
-        (s', d ++ " ||| " ++ (if impl == d then "ok" else "bad:want=" ++ d))
+        -- the specification is the fresh load with `replicas: n` (theorem `scale_eq_fresh` makes both agree)
+        let want := freshDump "ok" s' n
+        (s', d ++ " ||| " ++ (if impl == want then "ok" else "bad:C13:C13:not-the-replica-set-of-a-fresh-load"))
     | _, _ => (s, "bad-op")
   | _ => (s, "bad-op")
 
